@@ -298,3 +298,21 @@ MUTANTS += [
      "edits": [("repid/worker.py", "            if self.health_check_server is not None:  # pragma: no cover\n                await self.health_check_server.stop()\n            return runner",
                                     "            return runner")]},
 ]
+# host dimensions added after seeding round 7 (DESIGN §14): time zone, logger level, priorities, names, router defaults
+RU = "repid/connections/redis/utils.py"
+MUTANTS += [
+    {"name": "c05-redis-score-naive-as-utc", "checks": ["C05", "C04"],
+     "edits": [(RU, "        return math.ceil(params.delay.next_execution_time.timestamp())",
+                    "        return math.ceil(params.delay.next_execution_time.replace(tzinfo=__import__('datetime').timezone.utc).timestamp())")]},
+    {"name": "c14-redis-maintenance-utcnow", "checks": ["C14"],
+     "edits": [(RB, "        now = datetime.now()\n        tasks: list[asyncio.Task] = []", "        now = datetime.utcnow()\n        tasks: list[asyncio.Task] = []")]},
+    {"name": "c02-debug-line-bad-placeholder", "checks": ["C02"],
+     "edits": [(P, "            \"Running actor '{actor_name}' on message {message_id} with time limit {time_limit}.\",",
+                   "            \"Running actor '{actor_name}' on message {message_id} with time limit {limit}.\",")]},
+    {"name": "c03-redis-reject-default-priority", "checks": ["C10", "C03"],
+     "edits": [(RB, "                pipe.rpush(qnc(key.queue, key.priority), mnc(key, short=True))", "                pipe.rpush(qnc(key.queue), mnc(key, short=True))")]},
+    {"name": "c11-router-default-queue-ignored", "checks": ["C11"],
+     "edits": [("repid/router.py", "            queue=queue or self.defaults.queue,", "            queue=queue or \"default\",")]},
+    {"name": "c13-result-timestamp-utc", "checks": ["C13"],
+     "edits": [(P, "                exception=None,\n                timestamp=datetime.now(),", "                exception=None,\n                timestamp=datetime.utcnow(),")]},
+]
